@@ -237,6 +237,50 @@ def h2_case(seed):
     return desc, fails
 
 
+def big_body_app(size):
+    async def app(scope, receive, send, sleep, records, now):
+        rec = {"kind": "http", "start": now(), "path": scope["path"]}
+        records.append(rec)
+        await receive()
+        await send({"type": "http.response.start", "status": 200, "headers": []})
+        await send({"type": "http.response.body", "body": b"x" * size, "more_body": False})
+        await receive()
+        rec["end"] = now()
+
+    return app
+
+
+def h2_blocked_eof_case(seed):
+    """The client's window (100 bytes) holds the application in send(); the client then half-closes.  Reading is over:
+    whatever the released application still does, the connection is closed then and the idle timer is not re-armed."""
+    import h2.config
+    import h2.connection
+    import h2.settings
+
+    rng = random.Random(seed)
+    T = rng.choice([1.0, 5.0])
+    te = rng.choice([0.3, T / 2, T * 2])
+    c = h2.connection.H2Connection(h2.config.H2Configuration(client_side=True, header_encoding=None))
+    c.local_settings = h2.settings.Settings(client=True, initial_values={h2.settings.SettingCodes.INITIAL_WINDOW_SIZE: 100})
+    c.initiate_connection()
+    c.send_headers(1, [(b":method", b"GET"), (b":path", b"/a"), (b":scheme", b"https"), (b":authority", b"x")], end_stream=True)
+    script = [("send", c.data_to_send()), ("sleep", te), ("eof",)]
+    fails = []
+    desc = {"seed": seed, "carrier": "h2", "note": "blocked-sender-eof", "T": T, "eof_at": te}
+    for backend, run in (("asyncio", W.run_asyncio), ("trio", W.run_trio)):
+        for rep in range(3):          # the order in which the released sender and the closing reader run is the runtime's choice
+            res = run(big_body_app(1000), make_cfg(T), script, alpn="h2", tail=te + T * 5 + 50)
+            ca = closed_at(res)
+            if ca is None or abs(ca - te) > 1e-6:
+                fails.append({"signature": "h2-eof-close-time", "backend": backend, "closed_at": ca, "expected": te, "desc": desc})
+                break
+            if res["handler_done"] is None or res["leftovers"] or res["handler_error"]:
+                fails.append({"signature": "handler-not-finished", "backend": backend, "leftovers": res["leftovers"], "error": res["handler_error"],
+                              "desc": desc})
+                break
+    return desc, fails
+
+
 def terminate_case(seed):
     rng = random.Random(seed)
     T = 30.0
@@ -310,7 +354,7 @@ def timer_case(res, T):
 
 def run(ctx):
     fns = [(h1_case, ctx.scale(120, 2000, 600)), (loss_case, ctx.scale(80, 1200, 400)), (ws_case, ctx.scale(24, 300, 100)),
-           (h2_case, ctx.scale(24, 300, 100)), (terminate_case, ctx.scale(12, 100, 40))]
+           (h2_case, ctx.scale(24, 300, 100)), (h2_blocked_eof_case, ctx.scale(8, 100, 30)), (terminate_case, ctx.scale(12, 100, 40))]
     oracle_failures, descs = [], []
     for fn, n in fns:
         for i in range(n):
